@@ -158,13 +158,15 @@ def project(r, ref, percon, consz):
 def sizes_for(maxuse, quick, variant):
     top = maxuse + 1500
     if quick:
-        stride = 56 if variant == "plain" else 328
+        stride = 104 if variant == "plain" else 616
     else:
         stride = 8 if variant == "plain" else 40
     ns = list(range(0, top, stride))
-    # dense (every 4 bytes: all requests are multiples of 4) just above zero and around the full size
-    if variant == "plain" or not quick:
-        ns += list(range(0, 1600, 4 if not quick else 8)) + list(range(max(0, maxuse - 400), maxuse + 200, 4))
+    # dense (all requests are multiples of 4) just above zero and around the full size
+    if variant == "plain":
+        ns += list(range(0, 1600, 16 if quick else 4)) + list(range(max(0, maxuse - 200), maxuse + 100, 8 if quick else 4))
+    elif not quick:
+        ns += list(range(0, 1600, 16)) + list(range(max(0, maxuse - 200), maxuse + 100, 16))
     return sorted(set(ns))
 
 
@@ -195,13 +197,13 @@ def run(ctx):
                "mjModel.narena is set to N before mj_makeData (the compiled form of <size memory=N/>)",
                "after a catchable error the run calls mj_resetData and must find an empty stack and arena")
     cfgp = lambda n: os.path.join(TLA, n)
-    models = sorted(POOL)
+    models = sorted(POOL) if not ctx.quick else ["boxes", "boxmid", "fixed", "many", "multi4", "single"]
     J = {}
-    with cf.ThreadPoolExecutor(8) as ex:
+    with cf.ThreadPoolExecutor(16) as ex:
         J["mc"] = ex.submit(tlc.run, SPEC, cfgp("ArenaStep_MC.cfg"), coverage=True, timeout=1800, workers=4)
         J["steps"] = ex.submit(tlc.run, SPEC, cfgp("ArenaStep_Steps.cfg"), coverage=True, timeout=1800, workers=2)
-        J["pair"] = ex.submit(tlc.run, SPEC, cfgp("ArenaStep_AsIsPair.cfg"), timeout=900, workers=2)
-        J["island"] = ex.submit(tlc.run, SPEC, cfgp("ArenaStep_AsIsIsland.cfg"), timeout=900, workers=2)
+        J["pair"] = ex.submit(tlc.run, SPEC, cfgp("ArenaStep_AsIsPair.cfg"), timeout=900, workers=1)
+        J["island"] = ex.submit(tlc.run, SPEC, cfgp("ArenaStep_AsIsIsland.cfg"), timeout=900, workers=1)
         # the sweeps run meanwhile
         runs = {}
         refs = {}
@@ -304,10 +306,10 @@ def run(ctx):
     ctx.cov["exhaustive"] = False
     ctx.cov["rule"] = ("design: every capacity 0..20 x 96 demand profiles (1 step) and 0..12 x 3 profiles (3 steps, with the "
                        "liveness property that a step returns); binding: %d runs = %d pool models x memory sizes 0..maxuse+1500 "
-                       "(stride %s bytes, every 4-8 bytes near zero and near the full size) x {plain, asan}, 3 steps each in a "
+                       "(stride %s bytes, every 4-16 bytes near zero and near the full size) x {plain, asan}, 3 steps each in a "
                        "forked child; %d distinct observable event sequences validated by ArenaStepTrace; non-trivial = the run "
                        "hit a warning, an error or died; distinct = (model, build, N)" % (
-                           nruns, len(models), "56 / 328(asan)" if ctx.quick else "8 / 40(asan)", len(traces)))
+                           nruns, len(models), "104 / 616(asan)" if ctx.quick else "8 / 40(asan)", len(traces)))
 
 
 def replay(ctx, rp):
